@@ -151,6 +151,20 @@ theorem C11_new_variable_holds (re : Rearrange) (ctx : Ctx) (csE : Root → Bool
 
 end
 
+/-- `C11_erase_once` with the REAL placement of each backend (`temporary_from_position` of x86-64, AArch64,
+    RV64 is injective where defined): a dropped object variable is erased exactly once on each of them. -/
+theorem C11_erase_once_backends (re : Rearrange) (ctx : Ctx) (hnd : (ctx.map (·.1)).Nodup)
+    (b : Nat × Chi) (hb : b ∈ ctx) (hext : b.2 ≠ Chi.ext) (hdrop : targetCount re b.1 = 0) :
+    (∀ t, variableTemporary X86.temporaryFromPosition 0 ctx b.1 = some t →
+      (ctx.flatMap (refOpsFor X86.temporaryFromPosition re ctx)).count (.erase t) = 1) ∧
+    (∀ t, variableTemporary A64.temporaryFromPosition 0 ctx b.1 = some t →
+      (ctx.flatMap (refOpsFor A64.temporaryFromPosition re ctx)).count (.erase t) = 1) ∧
+    (∀ t, variableTemporary RV64.temporaryFromPosition 0 ctx b.1 = some t →
+      (ctx.flatMap (refOpsFor RV64.temporaryFromPosition re ctx)).count (.erase t) = 1) :=
+  ⟨fun t ht => C11_erase_once _ X86.tfp_injective re ctx hnd b hb hext hdrop t ht,
+   fun t ht => C11_erase_once _ A64.tfp_injective re ctx hnd b hb hext hdrop t ht,
+   fun t ht => C11_erase_once _ RV64.tfp_injective re ctx hnd b hb hext hdrop t ht⟩
+
 -- non-vacuity (the example of C11Counts.lean): object 100 had 1 reference among the old variables and has 2
 -- among the new ones; object 200 had 1 and has 0
 example : newRefs genericTemporary reC ctxC σC 100 = 2 ∧ oldRefs genericTemporary ctxC σC 100 = 1 := by decide
@@ -162,3 +176,5 @@ open Scc.Props.C11 in
 #print axioms C11_counts_balance
 open Scc.Props.C11 in
 #print axioms C11_new_variable_holds
+open Scc.Props.C11 in
+#print axioms C11_erase_once_backends
